@@ -2,6 +2,7 @@
    never past its steady state, and init_state is its fixed point" means (C03, C14).
    Code-independent. *)
 From Coq Require Import Reals.
+From Coquelicot Require Import Coquelicot.
 From JV Require Import RLemmas.
 Local Open Scope R_scope.
 
@@ -42,3 +43,9 @@ Definition it_gate_ok (xinf tau init : R -> R) (init_dom : R -> Prop)
 Definition fixed_point (init : R -> R) (init_dom : R -> Prop) (upd : R -> R -> R -> R) : Prop :=
   forall v dt, 0 < dt -> init_dom v /\ 0 <= init v <= 1 /\ upd (init v) dt v = init v.
 
+
+(* t |-> ode_solution x0 xinf tau t  has value x0 at t = 0 and derivative (xinf - x)/tau *)
+Definition is_derive_ode (x0 xinf tau t : R) : Prop :=
+  ode_solution x0 xinf tau 0 = x0 /\
+  is_derive (fun s => ode_solution x0 xinf tau s) t
+            ((xinf - ode_solution x0 xinf tau t) / tau).
